@@ -15,7 +15,7 @@ IsRel == TLCEval(UNION {{<<IsTab[i].bs0, IsTab[i].wf0, IsTab[i].pend0, IsTab[i].
                             : j \in 1..Len(IsTab[i].ends)} : i \in 1..Len(IsTab)})
 (* after an error return only the fact that the model allows an error from this entry state is compared (the parked state is not relied upon) *)
 IsErr == TLCEval({SubSeq(t, 1, 7) : t \in {t \in IsRel : t[12] = "ERR"}})
-RetClass(r) == IF r < 0 THEN "ERR" ELSE IF r = 3 THEN "NEED_DICT" ELSE "OK"
+RetClass(r) == IF r < 0 THEN "ERR" ELSE IF r = 6 THEN "NEED_DICT" ELSE "OK"      \* ISAL_NEED_DICT = 6
 
 (* crc_flag -> container the spec must parse / verify *)
 RefWrap(m) == CASE m = 1 -> "gzip" [] m = 3 -> "zlib" [] m = 5 -> "zlib_nohdr" [] m = 6 -> "gzip_nohdr" [] OTHER -> "raw"
